@@ -30,6 +30,28 @@ def vres(url):
     return ResourceHandle("verif", url, "v-" + url)
 
 
+def lookalike(v):
+    """a value that Python compares equal to v but that is another argument for memento (1 / True / 1.0, 0 / False / 0.0)"""
+    if isinstance(v, bool):
+        return int(v)
+    if isinstance(v, int):
+        return bool(v) if v in (0, 1) else float(v)
+    if isinstance(v, float) and v == int(v):
+        return int(v)
+    if isinstance(v, list):
+        return [lookalike(x) for x in v]
+    if isinstance(v, dict):
+        return {k: lookalike(x) for k, x in v.items()}
+    return v
+
+
+def attach(f, ctx, twice=False):
+    """f with context arguments ctx; `twice`: a look-alike dictionary is attached first and then replaced by the real one"""
+    if twice:
+        f = f.with_context_args(lookalike(dict(ctx)))
+    return f.with_context_args(dict(ctx))
+
+
 def _run(name, x, extra_kwargs):
     prog = STATE["program"]
     rec = {"node": name, "x": x, "kwargs": sorted(extra_kwargs), "calls": [], "resources": []}
@@ -46,7 +68,7 @@ def _run(name, x, extra_kwargs):
             arg = x + act.get("d", 0)
             f = callee
             if act.get("ctx") is not None:
-                f = f.with_context_args(dict(act["ctx"]))
+                f = attach(f, act["ctx"], STATE.get("attach_twice"))
             if act.get("prevent"):
                 f = f.with_prevent_further_calls(True)
             entry = {"fn": act["fn"], "arg": arg, "ctx": act.get("ctx"), "outcome": None}
